@@ -973,3 +973,126 @@ Proof.
     change 7%float with (FloatUtil.float_of_Z 7). rewrite !F by lia.
     split; [lra|]. right. rewrite !Rabs_pos_eq by lra. lra.
 Qed.
+
+(* ------------------------------------------------------------------------------------------
+   MatrixStats::var / std in binary64 (C03/ProofsFloat3.v): the ONE-PASS formula
+   sum x^2 / n - (sum x / n)^2 exactly as the code has it (entry i on either axis; n the line
+   length, n < 2^53 so that n converts exactly; x_j the real values of the entries; Qn = mean of
+   squares, Mr = mean, a = mean of magnitudes).  The computed variance is accurate relative to the
+   SECOND MOMENT Qn = var + mean^2, not relative to the variance; 1 + mean^2/var is the condition
+   number of the formula.  This is the theorem behind the known finding matrix-var-cancellation.
+   The only no-overflow hypothesis is that the result is finite; it implies n > 0 and finite inputs.
+   ------------------------------------------------------------------------------------------ *)
+From SC Require C03.ProofsFloat3 C03.ProofsFloat3Ex.
+
+Theorem C03_var_float_error : forall (m : C03.Model.dm PrimFloat.float) (axis0 : bool) (i : nat),
+  i < C03.Model.n_lines m axis0 -> (Z.of_nat (C03.Model.line_len m axis0) < 2 ^ 53)%Z ->
+  FloatError.ffin (nth i (C03.Model.var FOps m axis0) 0%float) ->
+  let n := C03.Model.line_len m axis0 in
+  let x := fun j => FloatError.FR (C03.Model.line FOps m axis0 i j) in
+  let Qn := (FloatError.Rsuml (map (fun j => x j * x j) (seq 0 n)) / INR n)%R in
+  let Mr := (FloatError.Rsuml (map x (seq 0 n)) / INR n)%R in
+  let a := (FloatError.Rsumabs (map x (seq 0 n)) / INR n)%R in
+  0 < n /\ (forall j, j < n -> FloatError.ffin (C03.Model.line FOps m axis0 i j)) /\
+  nth i (C03.Model.var ROps (C03.ProofsFloat.RM m) axis0) 0%R = (Qn - Mr * Mr)%R /\
+  (Qn - Mr * Mr = rsum n (fun j => (x j - Mr) ^ 2) / INR n)%R /\
+  (0 <= Qn - Mr * Mr)%R /\ (a * a <= Qn)%R /\
+  (Rabs (FloatError.FR (nth i (C03.Model.var FOps m axis0) 0%float) - (Qn - Mr * Mr)) <=
+    ((1 + FloatError.u64) ^ (n + 2) - 1) * Qn + ((1 + FloatError.u64) ^ (2 * n + 2) - 1) * (a * a)
+    + (1 + FloatError.u64) ^ (n + 2) * (2 * a + 4) * FloatError.eta64)%R.
+Proof. exact C03.ProofsFloat3.var_float_error. Qed.
+
+(* first-order form for n < 2^50: c(n) = 4n+6, relative to the mean of squares Qn (and a fortiori
+   to Qn + Mr^2) *)
+Theorem C03_var_float_error_lin : forall (m : C03.Model.dm PrimFloat.float) (axis0 : bool) (i : nat),
+  i < C03.Model.n_lines m axis0 -> (Z.of_nat (C03.Model.line_len m axis0) < 2 ^ 50)%Z ->
+  FloatError.ffin (nth i (C03.Model.var FOps m axis0) 0%float) ->
+  let n := C03.Model.line_len m axis0 in
+  let x := fun j => FloatError.FR (C03.Model.line FOps m axis0 i j) in
+  let Qn := (FloatError.Rsuml (map (fun j => x j * x j) (seq 0 n)) / INR n)%R in
+  let Mr := (FloatError.Rsuml (map x (seq 0 n)) / INR n)%R in
+  let a := (FloatError.Rsumabs (map x (seq 0 n)) / INR n)%R in
+  let V := (Qn - Mr * Mr)%R in
+  nth i (C03.Model.var ROps (C03.ProofsFloat.RM m) axis0) 0%R = V /\ (0 <= V)%R /\
+  (Rabs (FloatError.FR (nth i (C03.Model.var FOps m axis0) 0%float) - V)
+     <= (4 * INR n + 6) * FloatError.u64 * Qn + (3 * a + 6) * FloatError.eta64)%R /\
+  (Rabs (FloatError.FR (nth i (C03.Model.var FOps m axis0) 0%float) - V)
+     <= (4 * INR n + 6) * FloatError.u64 * (Qn + Mr * Mr) + (3 * a + 6) * FloatError.eta64)%R.
+Proof. exact C03.ProofsFloat3.var_float_error_lin. Qed.
+
+(* relative error of the computed variance <= (4n+6) u (1 + mean^2/var) (so also <= (4n+6) u
+   (1 + 2 mean^2/var)); data with mean^2 <= var (|mean| <= spread) get 2 (4n+6) u *)
+Theorem C03_var_condition_number : forall (m : C03.Model.dm PrimFloat.float) (axis0 : bool) (i : nat),
+  i < C03.Model.n_lines m axis0 -> (Z.of_nat (C03.Model.line_len m axis0) < 2 ^ 50)%Z ->
+  FloatError.ffin (nth i (C03.Model.var FOps m axis0) 0%float) ->
+  let n := C03.Model.line_len m axis0 in
+  let x := fun j => FloatError.FR (C03.Model.line FOps m axis0 i j) in
+  let Mr := (FloatError.Rsuml (map x (seq 0 n)) / INR n)%R in
+  let a := (FloatError.Rsumabs (map x (seq 0 n)) / INR n)%R in
+  let V := nth i (C03.Model.var ROps (C03.ProofsFloat.RM m) axis0) 0%R in
+  (0 < V)%R ->
+  (Rabs (FloatError.FR (nth i (C03.Model.var FOps m axis0) 0%float) - V) / V <=
+    (4 * INR n + 6) * FloatError.u64 * (1 + Mr * Mr / V) + (3 * a + 6) * FloatError.eta64 / V)%R /\
+  (Rabs (FloatError.FR (nth i (C03.Model.var FOps m axis0) 0%float) - V) / V <=
+    (4 * INR n + 6) * FloatError.u64 * (1 + 2 * (Mr * Mr) / V) + (3 * a + 6) * FloatError.eta64 / V)%R /\
+  ((Mr * Mr <= V)%R ->
+   (Rabs (FloatError.FR (nth i (C03.Model.var FOps m axis0) 0%float) - V) / V <=
+     2 * (4 * INR n + 6) * FloatError.u64 + (3 * a + 6) * FloatError.eta64 / V)%R).
+Proof. exact C03.ProofsFloat3.var_condition_number. Qed.
+
+(* std = sqrt(var): one more rounding (the square root neither over- nor underflows).  If the
+   computed variance has relative error r (from C03_var_condition_number), the computed standard
+   deviation has relative error u + (1+u) r; a finite std implies a finite, non-negative variance *)
+Theorem C03_std_float_error : forall (m : C03.Model.dm PrimFloat.float) (axis0 : bool) (i : nat) (r : R),
+  i < C03.Model.n_lines m axis0 ->
+  FloatError.ffin (nth i (C03.Model.std FOps m axis0) 0%float) ->
+  let V := nth i (C03.Model.var ROps (C03.ProofsFloat.RM m) axis0) 0%R in
+  (0 < V)%R ->
+  (Rabs (FloatError.FR (nth i (C03.Model.var FOps m axis0) 0%float) - V) <= r * V)%R ->
+  FloatError.ffin (nth i (C03.Model.var FOps m axis0) 0%float) /\
+  (0 <= FloatError.FR (nth i (C03.Model.var FOps m axis0) 0%float))%R /\
+  nth i (C03.Model.std ROps (C03.ProofsFloat.RM m) axis0) 0%R = R_sqrt.sqrt V /\
+  (Rabs (FloatError.FR (nth i (C03.Model.std FOps m axis0) 0%float) - R_sqrt.sqrt V)
+     <= (FloatError.u64 + (1 + FloatError.u64) * r) * R_sqrt.sqrt V)%R.
+Proof. exact C03.ProofsFloat3.std_float_error. Qed.
+
+(* the known finding matrix-var-cancellation in the model at FOps: the column 1e8 + {0,1,2,3}
+   satisfies the hypotheses, the computed variance is 2.0, the exact one 5/4 (relative error 3/5),
+   the mean 100000001.5, and the bound of C03_var_condition_number evaluates to more than 19:
+   it certifies nothing here, as it must *)
+Example C03_var_known_finding_instance :
+  let m := mkdm 4 1 [100000000; 100000001; 100000002; 100000003]%float in
+  0 < C03.Model.n_lines m true /\ (Z.of_nat (C03.Model.line_len m true) < 2 ^ 50)%Z /\
+  FloatError.ffin (nth 0 (C03.Model.var FOps m true) 0%float) /\
+  nth 0 (C03.Model.var FOps m true) 0%float = 2%float /\ FloatError.FR 2%float = 2%R /\
+  nth 0 (C03.Model.var ROps (C03.ProofsFloat.RM m) true) 0%R = (5 / 4)%R /\
+  (FloatError.Rsuml (map (fun j => FloatError.FR (C03.Model.line FOps m true 0 j)) (seq 0 4)) / INR 4 = 200000003 / 2)%R /\
+  (Rabs (2 - 5 / 4) / (5 / 4) = 3 / 5)%R /\
+  (19 <= (4 * INR 4 + 6) * FloatError.u64 * (1 + (200000003 / 2) * (200000003 / 2) / (5 / 4)))%R.
+Proof. exact C03.ProofsFloat3Ex.var_known_finding_instance. Qed.
+
+(* a centred column (0.1, -0.2, 0.3, -0.2 as binary64 numbers: every operation rounds): the same
+   bound certifies a relative accuracy of 2.5e-15 of the computed variance *)
+Example C03_var_centred_instance :
+  let m := mkdm 4 1 [0x1.999999999999ap-4; (-0x1.999999999999ap-3); 0x1.3333333333333p-2; (-0x1.999999999999ap-3)]%float in
+  let V := nth 0 (C03.Model.var ROps (C03.ProofsFloat.RM m) true) 0%R in
+  0 < C03.Model.n_lines m true /\ (Z.of_nat (C03.Model.line_len m true) < 2 ^ 50)%Z /\
+  FloatError.ffin (nth 0 (C03.Model.var FOps m true) 0%float) /\
+  (9 / 200 <= V <= 91 / 2000)%R /\
+  (Rabs (FloatError.FR (nth 0 (C03.Model.var FOps m true) 0%float) - V) / V <= 25 / 10 ^ 16)%R.
+Proof. exact C03.ProofsFloat3Ex.var_centred_instance. Qed.
+
+Example C03_std_float_instance :
+  let m := mkdm 4 1 [0x1.999999999999ap-4; (-0x1.999999999999ap-3); 0x1.3333333333333p-2; (-0x1.999999999999ap-3)]%float in
+  let V := nth 0 (C03.Model.var ROps (C03.ProofsFloat.RM m) true) 0%R in
+  0 < C03.Model.n_lines m true /\ FloatError.ffin (nth 0 (C03.Model.std FOps m true) 0%float) /\ (0 < V)%R /\
+  (Rabs (FloatError.FR (nth 0 (C03.Model.var FOps m true) 0%float) - V) <= 25 / 10 ^ 16 * V)%R.
+Proof.
+  cbv zeta. pose proof C03.ProofsFloat3Ex.var_centred_instance as H. cbv zeta in H.
+  unfold C03.ProofsFloat3Ex.m_cen in H. destruct H as (H1 & _ & _ & HV & B).
+  match type of B with (_ / ?v <= _)%R => set (V := v) in * end.
+  split; [exact H1|]. split; [vm_compute; reflexivity|]. split; [lra|].
+  apply (Rmult_le_reg_r (/ V)).
+  - apply Rinv_0_lt_compat. lra.
+  - rewrite (Rmult_assoc (25 / 10 ^ 16)), Rinv_r by lra. rewrite Rmult_1_r. exact B.
+Qed.
